@@ -83,6 +83,13 @@ func (p *Path) arbitrary(t types.Type, name string, depth int, site ssa.Instruct
 			return FloatV{Tok: v}
 		case u.Info()&types.IsString != 0:
 			s := p.freshStr("s_"+name, arbStrMax)
+			// string VALUES are ASCII: a Go string may hold any bytes, but JSON text cannot
+			// carry invalid UTF-8 (encoding/json substitutes U+FFFD), and multi-byte
+			// sequences do not fit the byte bound; raw request text (vrt.String) is all bytes
+			for i := 0; i < arbStrMax; i++ {
+				p.assert(smt.Lt(smt.Select(s.A[0].Arr, smt.Int(int64(i))), smt.Int(128)))
+			}
+			s.A[0].Alpha = asciiAlpha()
 			p.inputs = append(p.inputs, &Input{Name: name, Kind: "string", Arr: s.A[0].Arr, Len: s.A[0].Len, Max: arbStrMax})
 			return s
 		}
@@ -148,6 +155,10 @@ func (p *Path) arbitrary(t types.Type, name string, depth int, site ssa.Instruct
 		for i := 0; i < c-1; i++ {
 			kn := fmt.Sprintf("%s.k%d", name, i)
 			k := p.freshStr("s_"+kn, arbKeyMax)
+			for j := 0; j < arbKeyMax; j++ { // ASCII, as for string values
+				p.assert(smt.Lt(smt.Select(k.A[0].Arr, smt.Int(int64(j))), smt.Int(128)))
+			}
+			k.A[0].Alpha = asciiAlpha()
 			p.inputs = append(p.inputs, &Input{Name: kn, Kind: "string", Arr: k.A[0].Arr, Len: k.A[0].Len, Max: arbKeyMax})
 			for _, o := range keys {
 				p.assert(smt.Not(p.strEq(k, o)))
@@ -437,3 +448,13 @@ func sameShape(a, b Value, depth int) bool {
 	}
 	return true
 }
+
+var asciiSet = func() *[256]bool {
+	var a [256]bool
+	for i := 0; i < 128; i++ {
+		a[i] = true
+	}
+	return &a
+}()
+
+func asciiAlpha() *[256]bool { return asciiSet }
